@@ -112,6 +112,10 @@ M = [
   "        while let Some(syn) = self.accept_queue.syns.pop_front() {", "        while let Some(syn) = self.accept_queue.syns.pop_back() {", "newest first"),
  ("c13-rst-not-awaited", "C13", "C13.3", "try_send_rst", "src/socket.rs",
   "                self.try_send_rst(syn).await;\n                Ok(())", "                drop(self.try_send_rst(syn));\n                Ok(())", "future dropped: no RESET"),
+ ("c13-connect-guard-disarmed-early", "C13", "C13.5", "disarm-before-reply", "src/socket.rs",
+  "        let stream_or_err = rx.await.ok().ok_or(Error::DispatcherDead)?;\n        send_drop_guard.disarm();", "        send_drop_guard.disarm();\n        let stream_or_err = rx.await.ok().ok_or(Error::DispatcherDead)?;", "reordered pair: a cancelled connect leaks its slot"),
+ ("c13-synack-matched-by-seq_nr", "C13", "C13.5", "pop-key", "src/socket.rs",
+  "        let conn = if let Some(conn) = occ.get_mut().pop(msg.header.ack_nr) {", "        let conn = if let Some(conn) = occ.get_mut().pop(msg.header.seq_nr) {", "wrong field of the right type"),
  # ---------------------------------------------------------------- C14..C19
  ("c14-probe-not-last", "C14", "C14.2", "probe-enqueued-loop-continues", "src/stream_dispatch.rs",
   "            if is_mtu_probe {\n                trace!(payload_size, \"MTU probing, not segmenting more data\");\n                break;\n            }", "            if is_mtu_probe {\n                trace!(payload_size, \"MTU probing\");\n            }", "segments enqueued behind a probe"),
